@@ -292,9 +292,11 @@ fn btor2_rt(rng: &mut StdRng) -> (Vec<u8>, serde_json::Value) {
     let ids = [1u64, 2, 9, 10, 99999999, 100000000, u64::MAX];
     let id = |rng: &mut StdRng| NodeId::new(ids[rng.gen_range(0..ids.len())]);
     let nums = [0u64, 1, 7, 8, 12345678, 123456789, u64::MAX];
-    let consts_b = ["0", "1", "0101", "11111111000000001", "2", "0b1", "", "-1", "1 0"];
-    let consts_d = ["0", "-1", "255", "-128", "00012", "18446744073709551616", "ff", "1a", "-", "--1", "1-2", "+1", "", "-f"];
-    let consts_h = ["0", "ff", "DEADbeef", "7", "0A", "g", "0x1", "-1", ""];
+    // what the constant constructors are offered: valid spellings, near misses, and digits that are only digits to Unicode
+    let consts_b = ["0", "1", "0101", "11111111000000001", "2", "0b1", "", "-1", "1 0", "\u{ff10}\u{ff11}", "\u{661}"];
+    let consts_d = ["0", "-1", "255", "-128", "00012", "18446744073709551616", "ff", "1a", "-", "--1", "1-2", "+1", "", "-f",
+                    "\u{661}\u{662}\u{663}", "-\u{ff11}\u{ff12}", "\u{b2}", "\u{bd}", "1\u{660}"];
+    let consts_h = ["0", "ff", "DEADbeef", "7", "0A", "g", "0x1", "-1", "", "\u{ff46}\u{ff46}", "\u{ff21}1"];
     let syms = ["sym", "x1", "a;b", "-", "\u{3bb}", "c"];
     let cmts = ["", " trailing", "two ; semis", " \u{e9}\u{1f600}"];
     let n = rng.gen_range(1..6);
